@@ -25,7 +25,7 @@ def build_cases(tier, seed):
         if i % 5 == 4:
             prof["network"] = "grid"
         ctrl = BUILTIN if i % 2 == 0 else hostile_stack(p=0.2, builtin=True)
-        cases.append(trace_case("C04", i, s, prof, ctrl, steps, ["C04"], opts=({"cosim_ops": {"every": 7, "kinds": ["scale_rate"]}} if i % 4 == 1 else {})))
+        cases.append(trace_case("C04", i, s, prof, ctrl, steps, ["C04"], opts=({"cosim_ops": {"every": 7, "kinds": ["scale_rate", "scale_rate", "add_vehicle"]}} if i % 4 == 1 else {})))
     nsweep = 16 if tier == "quick" else 64
     per = 4000 if tier == "quick" else 20000
     for j in range(nsweep):
